@@ -25,6 +25,9 @@ THEOREMS = [
     "Nix.C12.no_partial_entity",
     "Nix.C12.no_attribute_change",
     "Nix.C12.links_kept_in_order",
+    "Nix.C12.paths_kept",
+    "Nix.C12.name_still_available",
+    "Nix.C12.rejected_name_available",
 ]
 ASSUMPTIONS = [
     "uuid4 ids are drawn from an abstract fresh supply; no link of the file is named like an id not yet drawn "
@@ -120,6 +123,7 @@ class Impl12(Impl):
         self.strict = strict
         self.changed = []
         self.refused = 0
+        self.crashed = None
 
     def run(self, op):
         if not (self.strict and op[0] in self.MUTATORS):
@@ -281,21 +285,28 @@ def snapshot(f):
 
 
 def snap_diff(a, b):
+    """readable difference of two snapshots (node numbers shift when a node appears: links are shown by name)"""
     pa = {r["path"]: r for r in a}
     pb = {r["path"]: r for r in b}
     d = []
-    for p in sorted(set(pa) | set(pb)):
-        if p not in pa:
-            d.append("appeared: %s" % (p or "/"))
-        elif p not in pb:
-            d.append("vanished: %s" % (p or "/"))
-        else:
-            x, y = dict(pa[p]), dict(pb[p])
-            x.pop("n"), y.pop("n")
-            if x != y:
-                for key in ("attrs", "links", "data"):
-                    if x.get(key) != y.get(key):
-                        d.append("%s of %s: %s -> %s" % (key, p or "/", str(x.get(key))[:120], str(y.get(key))[:120]))
+    for p in sorted(set(pb) - set(pa)):
+        d.append("appeared: %s" % (p or "/"))
+    for p in sorted(set(pa) - set(pb)):
+        d.append("vanished: %s" % (p or "/"))
+    for p in sorted(set(pa) & set(pb)):
+        x, y = pa[p], pb[p]
+        if x["attrs"] != y["attrs"]:
+            ax, ay = dict(x["attrs"]), dict(y["attrs"])
+            for k in sorted(set(ax) | set(ay)):
+                if ax.get(k) != ay.get(k):
+                    d.append("attribute %s of %s: %s -> %s" % (k, p or "/", ax.get(k), ay.get(k)))
+        lx, ly = [n for n, _ in x.get("links", [])], [n for n, _ in y.get("links", [])]
+        if lx != ly:
+            d.append("links of %s: %s -> %s" % (p or "/", lx, ly))
+        if x.get("data") != y.get("data"):
+            d.append("data of %s: %s -> %s" % (p or "/", x.get("data"), y.get("data")))
+    if not d:
+        d.append("link targets changed (same names)")
     return d[:8]
 
 
@@ -527,12 +538,19 @@ def run_history(ctx, rng, steps, profile, tag, inject_prob, strict=False, replay
                     gen.do(op)
         else:
             for _ in range(steps):
-                if rng.random() < inject_prob:
-                    k = gen.inject()
-                    kinds[k] = kinds.get(k, 0) + 1
-                else:
-                    gen.step()
-            gen.do(["dump12"])
+                try:
+                    if rng.random() < inject_prob:
+                        k = gen.inject()
+                        kinds[k] = kinds.get(k, 0) + 1
+                    else:
+                        gen.step()
+                except BadOp:
+                    raise
+                except Exception as e:      # noqa  the file can no longer be walked through the public API
+                    impl.crashed = "%s: %s" % (type(e).__name__, e)
+                    break
+            if impl.crashed is None:
+                gen.do(["dump12"])
     finally:
         impl.close()
         try:
@@ -565,8 +583,12 @@ def correspondence(ctx):
     for h in range(n_hist):
         rng = random.Random("%s/%d/%d" % (PROP, ctx.seed, h))
         profile = ["mixed", "create_delete", "links"][h % 3]
-        ops, outs, kinds, _ = run_history(ctx, rng, steps, profile, "h%d" % h, 0.35)
+        ops, outs, kinds, impl = run_history(ctx, rng, steps, profile, "h%d" % h, 0.35)
         model = core.run_driver(PROP, [["reset"]] + ops)[1:]
+        if impl.crashed:
+            disagreements.append(Disagreement({"history": h, "index": len(ops), "op": "walk of the file by the generator",
+                                               "prefix": ops if len(ops) < 1500 else None},
+                                              "file readable", "public API raised " + impl.crashed))
         for k, op, m, i in compare(ops, outs, model):
             disagreements.append(Disagreement({"history": h, "index": k, "op": op,
                                                "prefix": ops[:k + 1] if len(ops) < 1500 else None}, m, i))
@@ -861,7 +883,11 @@ def _check_call(f, c, label, call, retry):
         return None, False          # accepted: not a refusal, the property says nothing
     except Exception as e:      # noqa
         err = type(e).__name__
-    after, wafter = snapshot(f), walk(f)
+    after = snapshot(f)
+    try:
+        wafter = walk(f)
+    except Exception as e:      # noqa
+        wafter = [["the public API can no longer walk the file", "%s: %s" % (type(e).__name__, e)]]
     if after != before or wafter != wbefore:
         d = snap_diff(before, after) or ["API walk differs: %s" % [x for x in wafter if x not in wbefore][:3]]
         return Failure("a refused call changed the file", {"kind": "catalogue", "label": label},
